@@ -300,8 +300,8 @@ fn main() {
             let data = cx.rng.bytes(n); let keyb = cx.rng.bytes(sym.key_size());
             let reference = guarded(|| { let mut e = sym.stream_encryptor(Rng::new(4), &keyb, &data[..]).ok()?; let mut o = Vec::new(); e.read_to_end(&mut o).ok()?; Some(o) }).ok().flatten();
             let Some(reference) = reference else { continue; };
-            for reqs in [vec![1usize], vec![7], vec![16], vec![3, 40], vec![1000]] {
-                let r = guarded(|| { let e = sym.stream_encryptor(Rng::new(4), &keyb, SchedReader::new(data.clone(), vec![5, 1])).ok()?; let (o, res) = consume_read(e, &reqs); res.ok()?; Some(o) }).ok().flatten();
+            for reqs in [vec![1usize], vec![7], vec![16], vec![3, 40], vec![1000], vec![2, 2], vec![17, 1]] {
+                let r = guarded(|| { let e = sym.stream_encryptor(Rng::new(4), &keyb, SchedReader::new(data.clone(), vec![5, 1])).ok()?; let (o, res) = if reqs.len() == 2 && reqs[0] + reqs[1] != 43 { consume_read_with_empty(e, &reqs) } else { consume_read(e, &reqs) }; res.ok()?; Some(o) }).ok().flatten();
                 let ok = r.as_ref() == Some(&reference);
                 cx.out.case("", &[], &["cfb-encryptor".into(), u8::from(sym).to_string(), n.to_string(), nums(&reqs)], &format!("{} of {} octets", r.as_ref().map(|o| o.len()).unwrap_or(0), reference.len()), Some(ok), "stream-encryptor-cfb");
             }
@@ -311,8 +311,8 @@ fn main() {
         let data = cx.rng.bytes(n); let keyb = cx.rng.bytes(16); let salt = [7u8; 32];
         let reference = guarded(|| { let mut e = pgp::verif_hooks::aead_stream_encryptor(SymmetricKeyAlgorithm::AES128, AeadAlgorithm::Ocb, ChunkSize::C64B, &keyb, &salt, &data[..]).ok()?; let mut o = Vec::new(); e.read_to_end(&mut o).ok()?; Some(o) }).ok().flatten();
         let Some(reference) = reference else { continue; };
-        for reqs in [vec![1usize], vec![7], vec![64], vec![3, 90], vec![1000]] {
-            let r = guarded(|| { let e = pgp::verif_hooks::aead_stream_encryptor(SymmetricKeyAlgorithm::AES128, AeadAlgorithm::Ocb, ChunkSize::C64B, &keyb, &salt, SchedReader::new(data.clone(), vec![5, 1])).ok()?; let (o, res) = consume_read(e, &reqs); res.ok()?; Some(o) }).ok().flatten();
+        for reqs in [vec![1usize], vec![7], vec![64], vec![3, 90], vec![1000], vec![2, 2], vec![65, 1]] {
+            let r = guarded(|| { let e = pgp::verif_hooks::aead_stream_encryptor(SymmetricKeyAlgorithm::AES128, AeadAlgorithm::Ocb, ChunkSize::C64B, &keyb, &salt, SchedReader::new(data.clone(), vec![5, 1])).ok()?; let (o, res) = if reqs.len() == 2 && reqs[0] + reqs[1] != 93 { consume_read_with_empty(e, &reqs) } else { consume_read(e, &reqs) }; res.ok()?; Some(o) }).ok().flatten();
             let ok = r.as_ref() == Some(&reference);
             cx.out.case("", &[], &["aead-encryptor".into(), n.to_string(), nums(&reqs)], &format!("{} of {} octets", r.as_ref().map(|o| o.len()).unwrap_or(0), reference.len()), Some(ok), "stream-encryptor-aead");
         }
